@@ -28,6 +28,7 @@ let parse_op (w : string) : PlOps.plop =
      | "dlen" -> PlOps.QDlen o | "dcon" -> PlOps.QDcon (o, n 1) | "dalt" -> PlOps.QDalt (o, n 1, n 2)
      | "dent" -> PlOps.QDent (o, n 1, n 2) | "dret" -> PlOps.QDret (o, n 1, n 2) | "dclr" -> PlOps.QDclr o
      | "dit" -> PlOps.QDit o | "dref" -> PlOps.QDref (o, n 1) | "dmut" -> PlOps.QDmut (o, n 1, n 2) | "dtry" -> PlOps.QDtry (o, n 1)
+     | "drif" -> PlOps.QDrif (o, n 1, n 2) | "drim" -> PlOps.QDrim (o, n 1, n 2) | "dvw" -> PlOps.QDvw (o, n 1)
      | "sins" -> PlOps.QSins (o, n 1) | "srem" -> PlOps.QSrem (o, n 1) | "scon" -> PlOps.QScon (o, n 1) | "slen" -> PlOps.QSlen o
      | "lz" -> PlOps.QLz o
      | _ -> PlOps.QBad o)
